@@ -33,7 +33,7 @@ Lemma mono_step f :
   (forall inf prec ts, le_res (parse_expr f inf prec ts) (parse_expr (S f) inf prec ts)) /\
   (forall inf left prec pl ts, le_res (parse_suffix f inf left prec pl ts) (parse_suffix (S f) inf left prec pl ts)) /\
   (forall ts acc, le_res (parse_args f ts acc) (parse_args (S f) ts acc)) /\
-  (forall ts acc, le_res (parse_cover f ts acc) (parse_cover (S f) ts acc)).
+  (forall ts acc tc, le_res (parse_cover f ts acc tc) (parse_cover (S f) ts acc tc)).
 Proof.
   induction f as [|f [IHe [IHs [IHa IHc]]]].
   { repeat split; intros; apply le_nofuel. }
@@ -43,7 +43,7 @@ Proof.
   - intros inf left prec pl ts. destruct ts as [|k rest]; [apply le_refl|].
     rewrite !parse_suffix_step. le_auto IHe IHs IHa IHc.
   - intros ts acc. rewrite !parse_args_step. le_auto IHe IHs IHa IHc.
-  - intros ts acc. rewrite !parse_cover_args. rewrite !parse_args_step. le_auto IHe IHs IHa IHc.
+  - intros ts acc tc. rewrite !parse_cover_step. le_auto IHe IHs IHa IHc.
 Qed.
 
 Lemma le_trans {A} (a b c : res A) : le_res a b -> le_res b c -> le_res a c.
@@ -64,6 +64,15 @@ Lemma mono_args f f' ts acc : (f <= f')%nat -> le_res (parse_args f ts acc) (par
 Proof.
   induction 1 as [|m _ IH]; [apply le_refl|]. eapply le_trans; [exact IH|]. apply (proj1 (proj2 (proj2 (mono_step m)))).
 Qed.
+
+Lemma mono_cover f f' ts acc tc : (f <= f')%nat -> le_res (parse_cover f ts acc tc) (parse_cover f' ts acc tc).
+Proof.
+  induction 1 as [|m _ IH]; [apply le_refl|]. eapply le_trans; [exact IH|]. apply (proj2 (proj2 (proj2 (mono_step m)))).
+Qed.
+
+Lemma cover_more_fuel f f' ts acc tc r :
+  parse_cover f ts acc tc = r -> r <> NoFuel -> (f <= f')%nat -> parse_cover f' ts acc tc = r.
+Proof. intros H Hr Hf. destruct (mono_cover f f' ts acc tc Hf) as [E|E]; congruence. Qed.
 
 (* a result obtained with some fuel is the result with any larger fuel *)
 Lemma expr_more_fuel f f' inf prec ts r :
@@ -96,8 +105,10 @@ Definition len_suffix (f : nat) : Prop :=
   forall inf left prec pl ts t rest, parse_suffix f inf left prec pl ts = Ok (t, rest) -> (length rest <= length ts)%nat.
 Definition len_args (f : nat) : Prop :=
   forall ts acc l rest, parse_args f ts acc = Ok (l, rest) -> (length rest < length ts)%nat.
+Definition len_cover (f : nat) : Prop :=
+  forall ts acc tc l tc' rest, parse_cover f ts acc tc = Ok (l, tc', rest) -> (length rest < length ts)%nat.
 
-Ltac len_crunch IHe IHs IHa :=
+Ltac len_crunch IHe IHs IHa IHc :=
   repeat match goal with
   | H : Ok _ = Ok _ |- _ => inversion H; subst; clear H
   | H : Fail = Ok _ |- _ => discriminate H
@@ -108,25 +119,27 @@ Ltac len_crunch IHe IHs IHa :=
   | H : parse_expr _ _ _ _ = Ok (_, _) |- _ => apply IHe in H
   | H : parse_suffix _ _ _ _ _ _ = Ok (_, _) |- _ => apply IHs in H
   | H : parse_args _ _ _ = Ok (_, _) |- _ => apply IHa in H
-  | H : parse_cover _ _ _ = Ok (_, _) |- _ => rewrite parse_cover_args in H
+  | H : parse_cover _ _ _ _ = Ok (_, _, _) |- _ => apply IHc in H
   | H : (let '(_, _) := ?x in _) = Ok _ |- _ => destruct x
   | H : (if ?c then _ else _) = Ok _ |- _ => destruct c
   | H : match ?x with _ => _ end = Ok _ |- _ => destruct x
   end.
 
-Lemma len_all f : len_expr f /\ len_suffix f /\ len_args f.
+Lemma len_all f : len_expr f /\ len_suffix f /\ len_args f /\ len_cover f.
 Proof.
-  induction f as [|f [IHe [IHs IHa]]].
+  induction f as [|f [IHe [IHs [IHa IHc]]]].
   { repeat split; intros *; cbn; discriminate. }
   repeat split.
   - intros inf prec ts t rest H. destruct ts as [|k rest0]; [discriminate|].
     rewrite parse_expr_step in H. unfold group_tail in H.
-    len_crunch IHe IHs IHa; cbn [length] in *; lia.
+    len_crunch IHe IHs IHa IHc; cbn [length] in *; lia.
   - intros inf left prec pl ts t rest H. destruct ts as [|k rest0]; [cbn in H; inversion H; subst; cbn; lia|].
     rewrite parse_suffix_step in H.
-    len_crunch IHe IHs IHa; cbn [length] in *; lia.
+    len_crunch IHe IHs IHa IHc; cbn [length] in *; lia.
   - intros ts acc l rest H. rewrite parse_args_step in H.
-    len_crunch IHe IHs IHa; cbn [length] in *; lia.
+    len_crunch IHe IHs IHa IHc; cbn [length] in *; lia.
+  - intros ts acc tc l tc' rest H. rewrite parse_cover_step in H.
+    len_crunch IHe IHs IHa IHc; cbn [length] in *; lia.
 Qed.
 
 (* ---- fuel_for is enough ----------------------------------------------------------------------------------------- *)
@@ -144,8 +157,10 @@ Definition suff_suffix (f : nat) : Prop :=
   forall inf left prec pl ts, (2 * length ts + 1 <= f)%nat -> parse_suffix f inf left prec pl ts <> NoFuel.
 Definition suff_args (f : nat) : Prop :=
   forall ts acc, (2 * length ts + 2 <= f)%nat -> parse_args f ts acc <> NoFuel.
+Definition suff_cover (f : nat) : Prop :=
+  forall ts acc tc, (2 * length ts + 2 <= f)%nat -> parse_cover f ts acc tc <> NoFuel.
 
-Ltac nf_crunch IHe IHs IHa :=
+Ltac nf_crunch IHe IHs IHa IHc :=
   repeat match goal with
   | |- Ok _ <> NoFuel => discriminate
   | |- Fail <> NoFuel => discriminate
@@ -155,28 +170,30 @@ Ltac nf_crunch IHe IHs IHa :=
   | E : expect _ _ = Ok _ |- _ => apply expect_ok' in E; destruct E as [? E]; subst
   | E : parse_expr _ _ _ _ = Ok (_, _) |- _ => apply (proj1 (len_all _)) in E
   | E : parse_suffix _ _ _ _ _ _ = Ok (_, _) |- _ => apply (proj1 (proj2 (len_all _))) in E
-  | E : parse_args _ _ _ = Ok (_, _) |- _ => apply (proj2 (proj2 (len_all _))) in E
-  | E : parse_cover _ _ _ = Ok (_, _) |- _ => rewrite parse_cover_args in E
-  | |- parse_cover _ _ _ <> NoFuel => rewrite parse_cover_args
+  | E : parse_args _ _ _ = Ok (_, _) |- _ => apply (proj1 (proj2 (proj2 (len_all _)))) in E
+  | E : parse_cover _ _ _ _ = Ok (_, _, _) |- _ => apply (proj2 (proj2 (proj2 (len_all _)))) in E
   | |- (let '(_, _) := ?x in _) <> NoFuel => destruct x
   | |- (if ?c then _ else _) <> NoFuel => destruct c
   | |- match ?x with _ => _ end <> NoFuel => destruct x
   | |- parse_expr _ _ _ _ <> NoFuel => apply IHe; cbn [length] in *; lia
   | |- parse_suffix _ _ _ _ _ _ <> NoFuel => apply IHs; cbn [length] in *; lia
   | |- parse_args _ _ _ <> NoFuel => apply IHa; cbn [length] in *; lia
+  | |- parse_cover _ _ _ _ <> NoFuel => apply IHc; cbn [length] in *; lia
   end.
 
-Lemma suff_all f : suff_expr f /\ suff_suffix f /\ suff_args f.
+Lemma suff_all f : suff_expr f /\ suff_suffix f /\ suff_args f /\ suff_cover f.
 Proof.
-  induction f as [|f [IHe [IHs IHa]]].
-  { unfold suff_expr, suff_suffix, suff_args. repeat split; intros; exfalso; lia. }
+  induction f as [|f [IHe [IHs [IHa IHc]]]].
+  { unfold suff_expr, suff_suffix, suff_args, suff_cover. repeat split; intros; exfalso; lia. }
   repeat split.
   - intros inf prec ts Hf. destruct ts as [|k rest0]; [cbn; discriminate|]. cbn [length] in Hf.
-    rewrite parse_expr_step. unfold group_tail. nf_crunch IHe IHs IHa.
+    rewrite parse_expr_step. unfold group_tail. nf_crunch IHe IHs IHa IHc.
   - intros inf left prec pl ts Hf. destruct ts as [|k rest0]; [cbn; discriminate|]. cbn [length] in Hf.
-    rewrite parse_suffix_step. nf_crunch IHe IHs IHa.
+    rewrite parse_suffix_step. nf_crunch IHe IHs IHa IHc.
   - intros ts acc Hf. rewrite parse_args_step. destruct ts as [|k r]; [discriminate|]. cbn [length] in Hf.
-    nf_crunch IHe IHs IHa.
+    nf_crunch IHe IHs IHa IHc.
+  - intros ts acc tc Hf. rewrite parse_cover_step. destruct ts as [|k r]; [discriminate|]. cbn [length] in Hf.
+    nf_crunch IHe IHs IHa IHc.
 Qed.
 
 Lemma parse_has_fuel inf prec ts : parse inf prec ts <> NoFuel.
